@@ -46,6 +46,34 @@ theorem C29_changes_only_when_idle (cur : String) (stored new : Option String) (
       have hh' : ∀ x ∈ states, isFinished x = true := by simpa using hh
       exact hh'
 
+/-- when the question "is a swap active?" cannot be answered (a record does not decode), startup fails and the
+    version stays: an unanswered question is not a "no" -/
+theorem C29_query_failure (cur : String) (stored : Option String) (records : List (Option St)) (h : stored ≠ some cur)
+    (hbad : none ∈ records) : safeUpgradeQ cur stored records = .error .queryFailed := by
+  have : records.any Option.isNone = true := by
+    simp only [List.any_eq_true]
+    exact ⟨none, hbad, rfl⟩
+  simp [safeUpgradeQ, h, this]
+
+/-- over such buckets too the version changes only when every record decodes to a terminal state -/
+theorem C29_Q_changes_only_when_idle (cur : String) (stored new : Option String) (records : List (Option St))
+    (h : safeUpgradeQ cur stored records = .ok new) (hne : new ≠ stored) :
+    ∀ r ∈ records, ∃ s, r = some s ∧ isFinished s = true := by
+  unfold safeUpgradeQ at h
+  split at h
+  · injection h with h; exact absurd h.symm hne
+  · split at h
+    · cases h
+    · rename_i hbad
+      have hall := C29_changes_only_when_idle cur stored new _ h hne
+      intro r hr
+      cases r with
+      | none =>
+        have : records.any Option.isNone = true := by
+          simp only [List.any_eq_true]; exact ⟨none, hr, rfl⟩
+        exact absurd this hbad
+      | some s => exact ⟨s, rfl, hall s (by simp [List.mem_filterMap]; exact hr)⟩
+
 /-- `IsFinished` is exactly "the state has no outgoing edge" in every generated role table: a terminal
     state that `IsFinished` forgot (or a finished state with an edge) breaks this -/
 theorem C29_terminal_iff_no_edges :
@@ -57,5 +85,6 @@ theorem C29_finished_states :
 
 example : (safeUpgrade "v0.2" (some "v0.1") [.State_ClaimedCsv, .State_WaitCsv]).toOption = none := by decide
 example : (safeUpgrade "v0.2" none [.State_ClaimedCsv]).toOption = some (some "v0.2") := by decide
+example : (safeUpgradeQ "v0.2" (some "v0.1") [some .State_ClaimedCsv, none]).toOption = none := by decide
 
 end PsVerif.Props.C29
